@@ -18,6 +18,11 @@ class KDScheduledTransform(KDTransform):
         # default to linear from [0, 1]
         self.schedule = object_to_schedule(schedule) or LinearIncreasingSchedule()
 
+    def set_rng(self, rng):
+        # forward to the scheduled transform (otherwise it keeps its construction-time generator)
+        self.transform.set_rng(rng)
+        return self
+
     def _worker_init_fn(
             self,
             rank,
